@@ -88,15 +88,23 @@ func parse(aliasTag string, out any, data map[string][]string, files ...map[stri
 }
 
 // Parse data into the struct with gofiber/schema
-func parseToStruct(aliasTag string, out any, data map[string][]string, files ...map[string][]*multipart.FileHeader) error {
+func parseToStruct(aliasTag string, out any, data map[string][]string, files ...map[string][]*multipart.FileHeader) (err error) {
 	// Get decoder from pool
 	schemaDecoder := decoderPoolMap[aliasTag].Get().(*schema.Decoder) //nolint:errcheck,forcetypeassert // not needed
 	defer decoderPoolMap[aliasTag].Put(schemaDecoder)
 
+	// The decoder walks out with reflection and takes slice indexes from the keys: a malformed
+	// key (e.g. a negative index) makes it panic. Untrusted input must yield an error instead.
+	defer func() {
+		if r := recover(); r != nil {
+			err = fmt.Errorf("bind: %v", r)
+		}
+	}()
+
 	// Set alias tag
 	schemaDecoder.SetAliasTag(aliasTag)
 
-	if err := schemaDecoder.Decode(out, data, files...); err != nil {
+	if err = schemaDecoder.Decode(out, data, files...); err != nil {
 		return fmt.Errorf("bind: %w", err)
 	}
 
